@@ -1,0 +1,10 @@
+//go:build verif
+
+package shard
+
+import "github.com/nspcc-dev/neofs-node/pkg/local_object_storage/writecache"
+
+// VerifWriteCache returns the shard's write-cache (verification harness only).
+func (s *Shard) VerifWriteCache() writecache.Cache {
+	return s.writeCache
+}
